@@ -8,6 +8,16 @@ NOTE = ("Trusted base: go/packages, go/types, go/ssa, go/cfg of x/tools v0.29.0 
         "the behavioural remainder of the property is listed per property in DESIGN.md section 4 and in the evidence under coverage.explanation.")
 
 CLAIMED = {
+ "C01": ("codec-agreement rules on SSA: single source of bytes (MarshalText via Write), constant formats with operand provenance, symbolic wrap-width agreement, CR/LF comparison groups, pass-through must-yield on go/cfg",
+         "Exact decisions of the structural clauses 'MarshalText = Write', 'name line per record', 'lines of at most 80', 'CR wherever LF', 'every record handed on'. Does not decide decode(encode(x)) = x.", "4/C01"),
+ "C02": ("typestate (Scanner Buffer before use), constant format with operand provenance, dominance of the accepting return by the rejection guards, taint of bufio buffer views",
+         "Exact decisions of: token limit >= 2^30 before first Scan; 4-line layout and its field order on both sides; every malformation named by the property cannot reach the accepting return; no aliasing of the scanner buffer. Does not decide round-trip equality.", "4/C02"),
+ "C05": ("byte-set extraction from SSA comparisons and string constants; writer/reader table agreement; sign-class evaluation of the distance test; append-only stores into children",
+         "Exact decision, for every byte the tokenizer treats specially, that the writer protects it; inverse substitution/quoting pairs; distance written iff non-zero over all sign classes incl. NaN; condensed output ending in ';'; reader never drops children. Does not decide tree equality of the round trip.", "4/C05"),
+ "C06": ("CFG must-pass-through for File delegation, forward value flow of io.Reader values, taint of bufio buffer views, CR/LF table agreement, line-trimming chain shape",
+         "Exact decisions of: every File = aio.Open + identity pass-through of the same package's Reader; streams only enter re-assembling readers; nothing consults Buffered(); no buffer view escapes; CR recognised wherever LF is in every format. Does not decide equality of item sequences; bufio/gzip reassembly is trusted.", "4/C06"),
+ "C07": ("error-class dataflow {nil, EOF, other} x {reported} with edge refinement over SSA, per error term; companion-data use analysis; typestate Scan->Err; yield discipline after stream errors; writer error propagation incl. deferred calls",
+         "Decides for every fault offset at once that no stream failure can be dropped, that no data of a failed read is used, that an error item ends the iteration, and that every writer error is returned. Does not decide equality of the delivered prefix with the fault-free decode.", "4/C07"),
  "C03": ("bit-parallel abstract interpretation of the 12 flag constants, 12 getters, 12 setters (exact for all flag values); writer/reader table agreement rules for tags and columns",
          "Exact decision of the flag clause for all flag values; structural necessary conditions of the record/tag/header round trip. Does not decide equality of decode(encode(x)) with x.", "4/C03"),
  "C08": ("ordering enumeration of decideOnStep, symbolic sibling comparison Global/Local, traceback-delta agreement, must-pass-through clamp, may-write analysis",
